@@ -109,10 +109,6 @@ example :
       = [(.secure, some 5, true), (.secure, some 5, false), (.bogus, none, true)] := by
   decide
 
-/-- an oracle that accepts exactly the signed data of `recs` -/
-def acceptOnly (recs : List Record) : SigOracle :=
-  fun _ tbs _ => tbsImpl nameA 1 sig0.input recs == .ok tbs
-
 /-- an RRset of a type whose canonical form keeps the case of embedded names (opaque: key and canonical
 bytes as the real code computes them), next name `B.` / `b.` -/
 def recN (c : Nat) : Record := ⟨nameA, 1, 1, 3600, .opaque [1, c, 0] (some [1, c, 0])⟩
